@@ -1,6 +1,7 @@
 package gofakes3
 
 import (
+	"context"
 	"encoding/base64"
 	"encoding/hex"
 	"encoding/xml"
@@ -132,6 +133,11 @@ func (g *GoFakeS3) hostBucketMiddleware(handler http.Handler) http.Handler {
 	})
 }
 
+// hostBucketRequestKey marks, in a request's context, that the bucket was taken
+// from the Host header by hostBucketBaseMiddleware (hosts that match no base
+// are served path-style by the same server).
+type hostBucketRequestKey struct{}
+
 // hostBucketBaseMiddleware forces the server to use VirtualHost-style bucket URLs:
 // https://docs.aws.amazon.com/AmazonS3/latest/dev/UsingBucket.html
 func (g *GoFakeS3) hostBucketBaseMiddleware(handler http.Handler) http.Handler {
@@ -166,6 +172,9 @@ func (g *GoFakeS3) hostBucketBaseMiddleware(handler http.Handler) http.Handler {
 			rq.URL.Path += p
 		}
 		g.log.Print(LogInfo, p, "=>", rq.URL)
+
+		// URLs in the response have to name the bucket the way the request did:
+		rq = rq.WithContext(context.WithValue(rq.Context(), hostBucketRequestKey{}, true))
 
 		handler.ServeHTTP(w, rq)
 	})
@@ -974,8 +983,16 @@ func (g *GoFakeS3) completeMultipartUpload(bucket, object string, uploadID Uploa
 		protocol = "https"
 	}
 
+	// The URL names the bucket the way the request did. With a list of host
+	// bases (which takes precedence over the plain host-bucket option) that is
+	// decided per request:
+	hostStyle := g.hostBucket
+	if len(g.hostBucketBases) > 0 {
+		hostStyle, _ = r.Context().Value(hostBucketRequestKey{}).(bool)
+	}
+
 	var location string
-	if g.hostBucket {
+	if hostStyle {
 		location = fmt.Sprintf("%s://%s/%s", protocol, r.Host, object)
 	} else {
 		location = fmt.Sprintf("%s://%s/%s/%s", protocol, r.Host, bucket, object)
